@@ -147,3 +147,21 @@ PROPS["C20"] = {
     "assumptions": COMMON_ASSUME,
     "design_ref": "DESIGN.md §7 C20",
 }
+
+PROPS["C04"] = {
+    "title": "Decoding untrusted bytes is total and resource-bounded",
+    "module": "Theorems.C04",
+    "theorems": [
+        "Amqp.Codec.decoder_guards_present",
+        "Amqp.Codec.limits",
+        "Amqp.Codec.redecode_stable",
+        "Amqp.Codec.map_dedup_nest",
+    ],
+    "harness": ["codec"],
+    "gen_files": ["Amqp/Gen/Codes.lean"],
+    "technique": "Lean 4: total decoder model (structural recursion), generated guard obligations, re-decode stability theorem; the model is compared with the implementation on exhaustive short inputs, structure-aware corruptions and hostile inputs with measured allocation / panics (partial proof, see level text)",
+    "level_text": "Partial proof. Machine-checked: the decoder model is total (no panic outcome exists in it, fuel derived from the input length), the guards whose absence made the implementation panic, over-allocate or recurse without bound are generated obligations re-checked against de.rs / read/mod.rs on every run, and decode(encode(decode bs)) = decode bs for well-formed results. NOT yet proved over the model: the invariants 'nesting of every returned value <= depth limit', 'only a prefix is consumed' and 'number of nodes <= input length + zero-width budget' (stated in DESIGN.md; the induction over the decoder needs the model to be refactored into per-constructor steps). Those clauses are decided on the implementation by search: every 1-2 byte string, constructor-led 3-byte strings, corruptions of valid encodings (truncation at every offset, size/count fields replaced, constructors swapped, 32-bit fields set to extremes), hand-written hostile inputs, nesting to 20000 levels - each run under catch_unwind with a counting allocator, through the slice reader and (short inputs) the io reader with every chunk size; the model agrees with the implementation on all of them.",
+    "level_note": CODEC_NOTE + " Entry points other than Value (Performative, SASL frame, Message, LazyValue) are exercised by the engine-level runs of other properties, not by this check. Allocation is measured for the decoding thread; bounds used by the oracle: largest single allocation <= 64*len + 6 MB, total <= 4096*(len+16) + 12 MB (the constant is the decoder's budget of 65536 zero-width array elements).",
+    "assumptions": COMMON_ASSUME + ["test profile (overflow checks on) is what panics are judged in"],
+    "design_ref": "DESIGN.md §7 C04",
+}
